@@ -355,10 +355,13 @@ def run_workers(ctx, job):
             cmd += ["--budget-s", str(job["budget_s"])]
         cmd += ctx.known_args(job["harness"])
         env = base_env()
-        env.update(job.get("env", {}))
+        jenv = dict(job.get("env", {}))
+        if job.get("worker_env"):
+            jenv.update(job["worker_env"](w))     # per-worker environment (C18: the snapshots this worker owns)
+        env.update(jenv)
         lf = open(os.path.join(wd, "log.txt"), "w")
-        procs.append((subprocess.Popen(cmd, env=env, stdout=lf, stderr=subprocess.STDOUT), outj, failp, wd, lf, seed))
-    for p, outj, failp, wd, lf, seed in procs:
+        procs.append((subprocess.Popen(cmd, env=env, stdout=lf, stderr=subprocess.STDOUT), outj, failp, wd, lf, seed, jenv))
+    for p, outj, failp, wd, lf, seed, jenv in procs:
         rc = p.wait()
         lf.close()
         try:
@@ -372,17 +375,17 @@ def run_workers(ctx, job):
             ctx.violations.append(("worker %s crashed without summary (rc=%d)" % (tag, rc), os.path.join(wd, "log.txt")))
             continue
         s["job"] = tag
-        s["env"] = job.get("env", {})
+        s["env"] = jenv
         ctx.summaries.append(s)
         fl = s.get("failure")
         if fl:
             if fl["verdict"] == "confirmed":
-                if job.get("env"):
+                if jenv:
                     # record the environment the case needs
                     with open(failp) as fh:
                         body = fh.read()
                     lines = body.split("\n", 1)
-                    body = lines[0] + "\n# env: " + " ".join("%s=%s" % kv for kv in sorted(job["env"].items())) + "\n" + (lines[1] if len(lines) > 1 else "")
+                    body = lines[0] + "\n# env: " + " ".join("%s=%s" % kv for kv in sorted(jenv.items())) + "\n" + (lines[1] if len(lines) > 1 else "")
                     with open(failp, "w") as fh:
                         fh.write(body)
                 dst = ctx.save_violation(failp, "%s-w%d.replay" % (tag, seed % 1000003))
